@@ -110,6 +110,22 @@ CHECKS = {
              "blocked, results are a count / EPIPE / EWOULDBLOCK consistent with FIONREAD and the child's script position; input never blocks start and is "
              "either delivered completely (child reads all of it, sees EOF) or start fails with no child; blocking: every blocked interval is ended by a step "
              "of the child. A call that issues >20000 system calls without blocking or returning is reported as a busy wait."),
+    "C10": dict(
+        cat="model_checking", design="3/C10",
+        technique="exhaustive enumeration of the redirect configuration space against the real library and a real exec; the child reports (st_dev, st_ino, st_rdev, access mode, FD_CLOEXEC) of its descriptors",
+        text="All 6x6x7 explicit per-stream types + the four shorthands + all-default, each with the parent's descriptors 0/1/2 open or closed in all 8 "
+             "combinations (2056 real execs); every HANDLE/FILE target being the parent's own stdout/stderr instead of a user object (176); standard "
+             "streams closed with fclose() (28); thorough adds nonblocking. For each stream the helper's hello must show exactly the requested object "
+             "with the right direction (pipe inode matched to a descriptor the parent holds in the opposite direction; the parent's own stream or "
+             "the null device when it has none; same open file as fd 1 for STDOUT; the supplied handle/FILE; the path's inode opened read/write-only), "
+             "no FD_CLOEXEC left, and the API answers EPIPE exactly for non-pipe streams. A clean failure of a valid combination is a violation."),
+    "C11": dict(
+        cat="model_checking", design="3/C11",
+        technique="exhaustive enumeration of parent descriptor pools x limits x redirect kinds against the real library and a real exec; the child lists every descriptor it was started with",
+        text="Descriptor limits {32, 64, 256} (thorough: 1024, 2048) x every subset of extra parent descriptors at {3, 4, 11, L-2, L-1} each absent / open / "
+             "open+close-on-exec (243) x redirects {default, pipes, discard, user handles, user FILEs without close-on-exec}, plus the whole C10 space: "
+             "the started program sees 0, 1, 2 and exactly one more descriptor, the write end of a pipe whose read end the parent holds and that is none "
+             "of the streams; the caller's own descriptors are still open afterwards. The concurrent-start part is decided by the C20 harness."),
 }
 
 NOT_YET = "check not built yet (work in progress; see DESIGN.md section 7 for the build order)"
